@@ -1663,6 +1663,490 @@ Proof.
 Qed.
 
 (* ------------------------------------------------------------------------------------- *)
+(* append_num_dec / append_num_hex                                                         *)
+(* ------------------------------------------------------------------------------------- *)
+Lemma bufs_num_width_pos f base v : 1 <= bufs_num_width f base v.
+Proof.
+  revert v. induction f as [|f IH]; intros v; cbn [bufs_num_width]; [lia|].
+  destruct (v <? base); [lia|]. specialize (IH (v / base)). lia.
+Qed.
+
+(* the counting loop of ares_count_digits: never out of fuel below 2^64, = the width *)
+Lemma buf_count_digits_loop_ok base : 2 <= base -> forall f n d,
+  0 <= n < 2 ^ Z.of_nat f ->
+  buf_count_digits_loop (S f) base n d = Ok (d + (if n =? 0 then 0 else bufs_num_width f base n)).
+Proof.
+  intros Hb. induction f as [|f IH]; intros n d Hn.
+  - change (2 ^ Z.of_nat 0) with 1 in Hn. assert (n = 0) as -> by lia. cbn. f_equal. lia.
+  - change (buf_count_digits_loop (S (S f)) base n d)
+      with (if n >? 0 then buf_count_digits_loop (S f) base (n / base) (d + 1) else Ok d).
+    destruct (Z.gtb_spec n 0) as [Hgt | Hle].
+    + replace (n =? 0) with false by (symmetry; apply Z.eqb_neq; lia).
+      rewrite Nat2Z.inj_succ, Z.pow_succ_r in Hn by lia.
+      assert (0 <= n / base < 2 ^ Z.of_nat f) as Hq.
+      { split; [apply Z.div_pos; lia|]. apply Z.div_lt_upper_bound; [lia|].
+        assert (2 * 2 ^ Z.of_nat f <= base * 2 ^ Z.of_nat f) by (apply Z.mul_le_mono_nonneg_r; lia). lia. }
+      rewrite (IH (n / base) (d + 1) Hq). f_equal. cbn [bufs_num_width].
+      destruct (Z.ltb_spec n base) as [Hlt | Hge].
+      * rewrite Z.div_small by lia. cbn. lia.
+      * assert (1 <= n / base) by (apply Z.div_le_lower_bound; lia).
+        replace (n / base =? 0) with false by (symmetry; apply Z.eqb_neq; lia). lia.
+    + assert (n = 0) as -> by lia. cbn. f_equal. lia.
+Qed.
+
+Lemma buf_count_digits_ok base n : 2 <= base -> 0 <= n < 2 ^ 64 ->
+  buf_count_digits base n = Ok (bufs_num_width 64 base n).
+Proof.
+  intros Hb Hn. unfold buf_count_digits.
+  rewrite (buf_count_digits_loop_ok base Hb 64 n 0) by exact Hn. cbn [bind].
+  pose proof (bufs_num_width_pos 64 base n) as Hw.
+  destruct (Z.eqb_spec n 0) as [-> | Hne].
+  - cbn [Z.add Z.eqb]. cbn [bufs_num_width]. replace (0 <? base) with true by (symmetry; apply Z.ltb_lt; lia). reflexivity.
+  - replace (0 + bufs_num_width 64 base n =? 0) with false by (symmetry; apply Z.eqb_neq; lia). f_equal.
+Qed.
+
+(* v has at most (width) digits; the width is at most k when v < base^k *)
+Lemma bufs_num_width_bound base : 2 <= base -> forall f v, 0 <= v < 2 ^ Z.of_nat f ->
+  v < base ^ bufs_num_width f base v.
+Proof.
+  intros Hb. induction f as [|f IH]; intros v Hv; cbn [bufs_num_width].
+  - change (2 ^ Z.of_nat 0) with 1 in Hv. rewrite Z.pow_1_r. lia.
+  - destruct (Z.ltb_spec v base) as [Hlt | Hge]; [rewrite Z.pow_1_r; exact Hlt|].
+    rewrite Nat2Z.inj_succ, Z.pow_succ_r in Hv by lia.
+    assert (0 <= v / base < 2 ^ Z.of_nat f) as Hq.
+    { split; [apply Z.div_pos; lia|]. apply Z.div_lt_upper_bound; [lia|].
+      assert (2 * 2 ^ Z.of_nat f <= base * 2 ^ Z.of_nat f) by (apply Z.mul_le_mono_nonneg_r; lia). lia. }
+    specialize (IH (v / base) Hq). pose proof (bufs_num_width_pos f base (v / base)) as Hw.
+    rewrite Z.pow_add_r, Z.pow_1_r by lia.
+    pose proof (Z.div_mod v base ltac:(lia)) as Hdm. pose proof (Z.mod_pos_bound v base ltac:(lia)) as Hmb.
+    assert (base * (v / base + 1) <= base * base ^ bufs_num_width f base (v / base)) by (apply Z.mul_le_mono_nonneg_l; lia).
+    lia.
+Qed.
+
+Lemma bufs_num_width_le base : 2 <= base -> forall f v k, 0 <= v -> 1 <= k -> v < base ^ k ->
+  bufs_num_width f base v <= k.
+Proof.
+  intros Hb. induction f as [|f IH]; intros v k Hv Hk Hlt; cbn [bufs_num_width]; [lia|].
+  destruct (Z.ltb_spec v base) as [Hs | Hge]; [lia|].
+  assert (2 <= k).
+  { destruct (Z.eq_dec k 1) as [-> | Hne]; [rewrite Z.pow_1_r in Hlt; lia | lia]. }
+  assert (bufs_num_width f base (v / base) <= k - 1); [|lia].
+  apply IH; [apply Z.div_pos; lia | lia |].
+  apply Z.div_lt_upper_bound; [lia|]. replace k with (1 + (k - 1)) in Hlt by lia.
+  rewrite Z.pow_add_r, Z.pow_1_r in Hlt by lia. exact Hlt.
+Qed.
+
+(* the most significant of k+1 digits in front of the k lower ones *)
+Lemma bufs_num_digits_cons base k : 0 < base -> forall v, 0 <= v ->
+  bufs_num_digits base (S k) v = ((v / base ^ Z.of_nat k) mod base) :: bufs_num_digits base k v.
+Proof.
+  intros Hb. induction k as [|k IH]; intros v Hv.
+  - cbn [bufs_num_digits app]. change (base ^ Z.of_nat 0) with 1. rewrite Z.div_1_r. reflexivity.
+  - change (bufs_num_digits base (S (S k)) v) with (bufs_num_digits base (S k) (v / base) ++ [v mod base]).
+    rewrite IH by (apply Z.div_pos; lia). cbn [app]. f_equal.
+    rewrite Nat2Z.inj_succ, Z.pow_succ_r by lia. rewrite Z.div_div by (try apply Z.pow_pos_nonneg; lia). reflexivity.
+Qed.
+
+(* the characters in the order of the loop (i = k, k-1, ..., 1) *)
+Definition buf_loop_chars (f : Z -> Z) (k : nat) : list Z := map (fun i => f (Z.of_nat i)) (rev (seq 1 k)).
+
+Lemma buf_loop_chars_S f k : buf_loop_chars f (S k) = f (Z.of_nat (S k)) :: buf_loop_chars f k.
+Proof. unfold buf_loop_chars. rewrite seq_S, rev_app_distr. reflexivity. Qed.
+
+Lemma buf_loop_chars_zlen f k : buf_zlen (buf_loop_chars f k) = Z.of_nat k.
+Proof. unfold buf_loop_chars, buf_zlen. rewrite map_length, rev_length, seq_length. reflexivity. Qed.
+
+Lemma bufs_num_digits_loop base chr k v : 0 < base -> 0 <= v ->
+  map chr (bufs_num_digits base k v) = buf_loop_chars (fun i => chr ((v / base ^ (i - 1)) mod base)) k.
+Proof.
+  intros Hb Hv. induction k as [|k IH]; [reflexivity|].
+  rewrite bufs_num_digits_cons, buf_loop_chars_S by assumption. cbn [map]. rewrite IH. f_equal.
+  f_equal. f_equal. f_equal. f_equal. lia.
+Qed.
+
+(* two adjacent memcpy's are one *)
+Lemma buf_mem_write_app m d l1 l2 : 0 <= d -> d + buf_zlen l1 + buf_zlen l2 <= buf_zlen m ->
+  buf_mem_write (buf_mem_write m d l1) (d + buf_zlen l1) l2 = buf_mem_write m d (l1 ++ l2).
+Proof.
+  intros Hd Hlen. pose proof (buf_zlen_nonneg l1) as H1. pose proof (buf_zlen_nonneg l2) as H2.
+  unfold buf_mem_write.
+  assert (buf_zlen (buf_take d m) = d) as Htz by (apply buf_take_zlen; lia).
+  rewrite buf_take_app_r by lia. rewrite Htz. replace (d + buf_zlen l1 - d) with (buf_zlen l1) by lia.
+  rewrite buf_take_app_exact by reflexivity.
+  rewrite buf_drop_app_r by lia. rewrite Htz.
+  replace (d + buf_zlen l1 + buf_zlen l2 - d) with (buf_zlen l1 + buf_zlen l2) by lia.
+  rewrite buf_drop_app_r by lia. replace (buf_zlen l1 + buf_zlen l2 - buf_zlen l1) with (buf_zlen l2) by lia.
+  rewrite buf_drop_drop by lia. rewrite buf_zlen_app. rewrite <- !app_assoc.
+  replace (d + buf_zlen l1 + buf_zlen l2) with (d + (buf_zlen l1 + buf_zlen l2)) by lia. reflexivity.
+Qed.
+
+(* appending into room that is already there: no reclaim, no allocation, whatever the allocator says *)
+Lemma buf_append_direct junk ok b bytes : buf_inv b -> cb_hasabuf b = true ->
+  0 < buf_zlen bytes -> cb_dlen b + buf_zlen bytes < cb_alloc b ->
+  buf_append junk ok b bytes =
+  Ok (ARES_SUCCESS, mkBuf (buf_mem_write (cb_mem b) (cb_dlen b) bytes) (cb_dlen b + buf_zlen bytes)
+                          (cb_alloc b) (cb_off b) (cb_tag b) (cb_hasdata b) (cb_hasabuf b)).
+Proof.
+  intros Hi Ha Hpos Hroom. pose proof (buf_inv_mem_len b Hi) as [Hm Hl].
+  assert (buf_shape_dyn b) as (Hd & _ & Hmz & Hda & Hal).
+  { destruct Hi as (_ & _ & [Hs | [Hs | Hs]]); [destruct Hs as (_ & Ha' & _); congruence | destruct Hs as (_ & Ha' & _); congruence | exact Hs]. }
+  assert (0 <= cb_dlen b) as Hd0 by (destruct Hi as (Ho & _); lia).
+  unfold buf_append. replace (buf_zlen bytes =? 0) with false by (symmetry; apply Z.eqb_neq; lia).
+  unfold buf_ensure_space. rewrite buf_is_const_eq. rewrite Hd, Ha. cbn [andb negb b2z Z.eqb bind].
+  rewrite (buf_w64_small (buf_zlen bytes + 1)) by (buf_consts; lia).
+  rewrite (buf_w64_small (cb_alloc b - cb_dlen b)) by (buf_consts; lia).
+  replace (cb_alloc b - cb_dlen b >=? buf_zlen bytes + 1) with true by (symmetry; rewrite Z.geb_leb; apply Z.leb_le; lia).
+  cbn [bind fst snd Z.eqb negb ARES_SUCCESS]. rewrite Ha. cbn [negb].
+  replace (buf_zlen (cb_mem b) <? cb_dlen b + buf_zlen bytes) with false by (symmetry; apply Z.ltb_ge; lia).
+  rewrite buf_w64_small by (buf_consts; lia). rewrite ?Hd, ?Ha. reflexivity.
+Qed.
+
+(* the digit loop after the reservation = one memcpy of all characters *)
+Lemma buf_num_loop_direct junk dc f ok : forall k b,
+  (forall i, (1 <= i <= k)%nat -> dc (Z.of_nat i) = Ok (f (Z.of_nat i))) ->
+  buf_inv b -> cb_hasabuf b = true -> cb_dlen b + Z.of_nat k < cb_alloc b ->
+  buf_num_loop junk dc ok b k =
+  Ok (ARES_SUCCESS, mkBuf (buf_mem_write (cb_mem b) (cb_dlen b) (buf_loop_chars f k)) (cb_dlen b + Z.of_nat k)
+                          (cb_alloc b) (cb_off b) (cb_tag b) (cb_hasdata b) (cb_hasabuf b)).
+Proof.
+  induction k as [|k IH]; intros b Hdc Hi Ha Hroom.
+  - cbn [buf_num_loop]. f_equal. f_equal. destruct b as [m d a o t hd ha]. cbn [cb_mem cb_dlen cb_alloc cb_off cb_tag cb_hasdata cb_hasabuf].
+    unfold buf_loop_chars. cbn [seq rev map]. unfold buf_mem_write. cbn [app buf_zlen length Z.of_nat].
+    rewrite !Z.add_0_r. rewrite buf_take_drop. reflexivity.
+  - cbn [buf_num_loop]. rewrite Hdc by lia. cbn [bind]. unfold buf_append_byte.
+    assert (buf_zlen [f (Z.of_nat (S k))] = 1) as H1 by reflexivity.
+    rewrite buf_append_direct by (try assumption; rewrite H1; lia). cbn [bind fst snd Z.eqb negb ARES_SUCCESS].
+    rewrite H1.
+    destruct (buf_write_tail_abs b [f (Z.of_nat (S k))] Hi Ha) as (Hi' & _); [rewrite H1; lia|]. rewrite H1 in Hi'.
+    rewrite IH; [| intros i Hr; apply Hdc; lia | exact Hi' | exact Ha | cbn [cb_dlen cb_alloc]; lia].
+    cbn [cb_mem cb_dlen cb_alloc cb_off cb_tag cb_hasdata cb_hasabuf].
+    pose proof (buf_inv_mem_len b Hi) as [Hm _].
+    assert (buf_shape_dyn b) as (_ & _ & Hmz & _).
+    { destruct Hi as (_ & _ & [Hs | [Hs | Hs]]); [destruct Hs as (_ & Ha' & _); congruence | destruct Hs as (_ & Ha' & _); congruence | exact Hs]. }
+    assert (0 <= cb_dlen b) as Hd0 by (destruct Hi as (Ho & _); lia).
+    rewrite <- H1 at 1. rewrite buf_mem_write_app by (try lia; rewrite H1, buf_loop_chars_zlen; lia).
+    rewrite buf_loop_chars_S. cbn [app]. f_equal. f_equal. f_equal. lia.
+Qed.
+
+(* reservation + digit loop = ares_buf_append of all characters *)
+Lemma buf_num_reserve_loop junk dc f ok b k : (0 < k)%nat -> Z.of_nat k < BUF_ALLOC_LIMIT ->
+  (forall i, (1 <= i <= k)%nat -> dc (Z.of_nat i) = Ok (f (Z.of_nat i))) -> buf_inv b ->
+  (do r <- buf_ensure_space junk ok b (Z.of_nat k);
+   if negb (fst r =? ARES_SUCCESS) then Ok r else buf_num_loop junk dc ok (snd r) k)
+  = buf_append junk ok b (buf_loop_chars f k).
+Proof.
+  intros Hk Hlim Hdc Hi. unfold buf_append. rewrite buf_loop_chars_zlen.
+  replace (Z.of_nat k =? 0) with false by (symmetry; apply Z.eqb_neq; lia).
+  destruct (buf_ensure_space_refines junk ok b (Z.of_nat k) Hi) as (st & b1 & He & Hi1 & _ & _ & Hcases); [lia|].
+  rewrite He. cbn [bind fst snd].
+  destruct Hcases as [(Hst & _) | [(Hst & _ & Ha1 & Hroom) | (Hst & _)]]; subst st;
+    cbn [Z.eqb negb ARES_EFORMERR ARES_ENOMEM ARES_SUCCESS]; try reflexivity.
+  rewrite (buf_num_loop_direct junk dc f ok k b1 Hdc Hi1 Ha1 Hroom).
+  rewrite Ha1. cbn [negb].
+  pose proof (buf_inv_mem_len b1 Hi1) as [Hm1 Hl1].
+  assert (buf_shape_dyn b1) as (_ & _ & Hmz & _).
+  { destruct Hi1 as (_ & _ & [Hs | [Hs | Hs]]); [destruct Hs as (_ & Ha' & _); congruence | destruct Hs as (_ & Ha' & _); congruence | exact Hs]. }
+  replace (buf_zlen (cb_mem b1) <? cb_dlen b1 + Z.of_nat k) with false by (symmetry; apply Z.ltb_ge; lia).
+  assert (0 <= cb_dlen b1) as Hd0 by (destruct Hi1 as (Ho & _); lia).
+  rewrite buf_w64_small by (buf_consts; lia). rewrite ?Ha1. reflexivity.
+Qed.
+
+(* ares_pow(10, k) for the powers that fit *)
+Lemma buf_pow10_small k : (k <= 19)%nat -> buf_pow 10 (Z.of_nat k) = Ok (10 ^ Z.of_nat k).
+Proof.
+  intros Hk. do 20 (destruct k as [|k]; [vm_compute; reflexivity|]). lia.
+Qed.
+
+Lemma buf_dec_digit_ok num i : 0 <= num < 2 ^ 64 -> 1 <= i ->
+  buf_dec_digit num (bufs_num_width 64 10 num) i = Ok ((num / 10 ^ (i - 1)) mod 10).
+Proof.
+  intros Hn Hi. unfold buf_dec_digit.
+  pose proof (bufs_num_width_pos 64 10 num) as Hw1.
+  assert (bufs_num_width 64 10 num <= 20) as Hw2.
+  { apply bufs_num_width_le; [lia | lia | lia |]. change (2 ^ 64) with 18446744073709551616 in Hn. change (10 ^ 20) with 100000000000000000000. lia. }
+  destruct (Z.leb_spec i (bufs_num_width 64 10 num)) as [Hle | Hgt].
+  - rewrite buf_w64_small by (buf_consts; lia).
+    replace (i - 1) with (Z.of_nat (Z.to_nat (i - 1))) by lia.
+    rewrite buf_pow10_small by lia. cbn [bind].
+    assert (0 < 10 ^ Z.of_nat (Z.to_nat (i - 1))) by (apply Z.pow_pos_nonneg; lia).
+    replace (10 ^ Z.of_nat (Z.to_nat (i - 1)) =? 0) with false by (symmetry; apply Z.eqb_neq; lia). reflexivity.
+  - f_equal. symmetry.
+    pose proof (bufs_num_width_bound 10 ltac:(lia) 64 num Hn) as Hb.
+    assert (10 ^ bufs_num_width 64 10 num <= 10 ^ (i - 1)) by (apply Z.pow_le_mono_r; lia).
+    rewrite Z.div_small by lia. reflexivity.
+Qed.
+
+Lemma buf_hex_digit_ok num i : 0 <= num < 2 ^ 64 -> 1 <= i ->
+  buf_hex_digit num (bufs_num_width 64 16 num) i = Ok ((num / 16 ^ (i - 1)) mod 16).
+Proof.
+  intros Hn Hi. unfold buf_hex_digit.
+  pose proof (bufs_num_width_pos 64 16 num) as Hw1.
+  assert (bufs_num_width 64 16 num <= 16) as Hw2.
+  { apply bufs_num_width_le; [lia | lia | lia |]. change (16 ^ 16) with (2 ^ 64). lia. }
+  destruct (Z.leb_spec i (bufs_num_width 64 16 num)) as [Hle | Hgt].
+  - rewrite (buf_w64_small (i - 1)) by (buf_consts; lia). rewrite buf_w64_small by (buf_consts; lia).
+    replace ((i - 1) * 4 >=? 64) with false by (symmetry; rewrite Z.geb_leb; apply Z.leb_gt; lia).
+    f_equal. rewrite Z.shiftr_div_pow2 by lia. change 15 with (Z.ones 4). rewrite Z.land_ones by lia.
+    replace ((i - 1) * 4) with (4 * (i - 1)) by lia. rewrite Z.pow_mul_r by lia. reflexivity.
+  - f_equal. symmetry.
+    pose proof (bufs_num_width_bound 16 ltac:(lia) 64 num Hn) as Hb.
+    assert (16 ^ bufs_num_width 64 16 num <= 16 ^ (i - 1)) by (apply Z.pow_le_mono_r; lia).
+    rewrite Z.div_small by lia. reflexivity.
+Qed.
+
+Lemma buf_dec_char_ok d : 0 <= d < 10 -> buf_dec_char d = bufs_dec_char d.
+Proof.
+  intros Hd. unfold buf_dec_char, bufs_dec_char. rewrite !buf_land_255.
+  rewrite (Z.mod_small d) by lia. apply Z.mod_small. lia.
+Qed.
+
+Lemma buf_hex_char_ok d : 0 <= d < 16 -> buf_hex_char d = Ok (bufs_hex_char d).
+Proof.
+  intros Hd. replace d with (Z.of_nat (Z.to_nat d)) by lia.
+  assert (Z.to_nat d < 16)%nat as Hn by lia. revert Hn. generalize (Z.to_nat d). intros n Hn.
+  do 16 (destruct n as [|n]; [vm_compute; reflexivity|]). lia.
+Qed.
+
+Lemma bufs_num_digits_range base k : 0 < base -> forall v, Forall (fun d => 0 <= d < base) (bufs_num_digits base k v).
+Proof.
+  intros Hb. induction k as [|k IH]; intros v; cbn [bufs_num_digits]; [constructor|].
+  apply Forall_app. split; [apply IH|]. constructor; [apply Z.mod_pos_bound; lia | constructor].
+Qed.
+
+Lemma bufs_num_digits_zlen base k v : buf_zlen (bufs_num_digits base k v) = Z.of_nat k.
+Proof.
+  revert v. induction k as [|k IH]; intros v; cbn [bufs_num_digits]; [reflexivity|].
+  rewrite buf_zlen_app, IH. unfold buf_zlen. cbn [length]. lia.
+Qed.
+
+Definition buf_num_len (base num len : Z) : Z := if len =? 0 then bufs_num_width 64 base num else len.
+
+Lemma bufs_num_bytes_zlen base chr num len : 0 <= len ->
+  buf_zlen (bufs_num_bytes base chr num len) = buf_num_len base num len /\ 0 < buf_num_len base num len.
+Proof.
+  intros Hl. unfold bufs_num_bytes, buf_num_len. pose proof (bufs_num_width_pos 64 base num) as Hw.
+  unfold buf_zlen at 1. rewrite map_length. fold (buf_zlen (bufs_num_digits base (Z.to_nat (if len =? 0 then bufs_num_width 64 base num else len)) num)).
+  rewrite bufs_num_digits_zlen. destruct (Z.eqb_spec len 0); lia.
+Qed.
+
+Lemma bufs_num_bytes_ok_dec num len : buf_bytes_ok (bufs_num_bytes 10 bufs_dec_char num len).
+Proof.
+  unfold bufs_num_bytes, buf_bytes_ok. apply Forall_map.
+  eapply Forall_impl; [|apply (bufs_num_digits_range 10); lia]. intros d Hd. unfold bufs_dec_char. cbn beta in *. lia.
+Qed.
+
+Lemma bufs_num_bytes_ok_hex num len : buf_bytes_ok (bufs_num_bytes 16 bufs_hex_char num len).
+Proof.
+  unfold bufs_num_bytes, buf_bytes_ok. apply Forall_map.
+  eapply Forall_impl; [|apply (bufs_num_digits_range 16); lia]. intros d Hd. unfold bufs_hex_char. cbn beta in *.
+  destruct (d <? 10); lia.
+Qed.
+
+Lemma buf_num_bytes_lim base chr num len : 2 <= base -> 0 <= num < 2 ^ 64 -> 0 <= len < BUF_ALLOC_LIMIT ->
+  buf_zlen (bufs_num_bytes base chr num len) < BUF_ALLOC_LIMIT.
+Proof.
+  intros Hb Hn Hl. destruct (bufs_num_bytes_zlen base chr num len) as [Hz _]; [lia|]. rewrite Hz.
+  unfold buf_num_len. destruct (len =? 0); [|lia].
+  assert (bufs_num_width 64 base num <= 64); [|buf_consts; lia].
+  apply bufs_num_width_le; [lia | lia | lia |].
+  assert (2 ^ 64 <= base ^ 64) by (apply Z.pow_le_mono_l; lia). lia.
+Qed.
+
+(* ares_buf_append_num_dec (patched) IS ares_buf_append of the decimal characters: the number
+   zero-padded / cut to len characters (len = 0: its natural width) *)
+Theorem buf_append_num_dec_eq junk ok b num len :
+  buf_inv b -> 0 <= num < 2 ^ 64 -> 0 <= len < BUF_ALLOC_LIMIT ->
+  buf_append_num_dec junk ok b num len = buf_append junk ok b (bufs_num_bytes 10 bufs_dec_char num len).
+Proof.
+  intros Hi Hn Hl. unfold buf_append_num_dec. rewrite buf_count_digits_ok by (try lia; exact Hn). cbn [bind].
+  destruct (bufs_num_bytes_zlen 10 bufs_dec_char num len) as [_ Hpos]; [lia|]. unfold buf_num_len in Hpos.
+  assert ((if len =? 0 then bufs_num_width 64 10 num else len) < BUF_ALLOC_LIMIT) as Hlim.
+  { destruct (len =? 0); [|lia]. assert (bufs_num_width 64 10 num <= 20); [|buf_consts; lia].
+    apply bufs_num_width_le; [lia | lia | lia |]. change (2 ^ 64) with 18446744073709551616 in Hn. change (10 ^ 20) with 100000000000000000000. lia. }
+  unfold bufs_num_bytes. set (L := if len =? 0 then bufs_num_width 64 10 num else len) in *.
+  rewrite bufs_num_digits_loop by lia.
+  replace L with (Z.of_nat (Z.to_nat L)) at 1 by lia.
+  apply buf_num_reserve_loop; [lia | lia | | exact Hi].
+  intros i Hr. rewrite buf_dec_digit_ok by (try exact Hn; lia). cbn [bind]. f_equal.
+  apply buf_dec_char_ok. apply Z.mod_pos_bound. lia.
+Qed.
+
+Theorem buf_append_num_hex_eq junk ok b num len :
+  buf_inv b -> 0 <= num < 2 ^ 64 -> 0 <= len < BUF_ALLOC_LIMIT ->
+  buf_append_num_hex junk ok b num len = buf_append junk ok b (bufs_num_bytes 16 bufs_hex_char num len).
+Proof.
+  intros Hi Hn Hl. unfold buf_append_num_hex. rewrite buf_count_digits_ok by (try lia; exact Hn). cbn [bind].
+  destruct (bufs_num_bytes_zlen 16 bufs_hex_char num len) as [_ Hpos]; [lia|]. unfold buf_num_len in Hpos.
+  assert ((if len =? 0 then bufs_num_width 64 16 num else len) < BUF_ALLOC_LIMIT) as Hlim.
+  { destruct (len =? 0); [|lia]. assert (bufs_num_width 64 16 num <= 16); [|buf_consts; lia].
+    apply bufs_num_width_le; [lia | lia | lia |]. change (16 ^ 16) with (2 ^ 64). lia. }
+  unfold bufs_num_bytes. set (L := if len =? 0 then bufs_num_width 64 16 num else len) in *.
+  rewrite bufs_num_digits_loop by lia.
+  replace L with (Z.of_nat (Z.to_nat L)) at 1 by lia.
+  apply buf_num_reserve_loop; [lia | lia | | exact Hi].
+  intros i Hr. rewrite buf_hex_digit_ok by (try exact Hn; lia). cbn [bind].
+  apply buf_hex_char_ok. apply Z.mod_pos_bound. lia.
+Qed.
+
+(* ------------------------------------------------------------------------------------- *)
+(* parse_dns_binstr / parse_dns_str                                                        *)
+(* ------------------------------------------------------------------------------------- *)
+Lemma buf_fetch_bytes_ok b n : buf_inv b -> 0 < n ->
+  buf_fetch_bytes b n = Ok (if cb_dlen b - cb_off b <? n then (ARES_EBADRESP, b, [])
+                            else (ARES_SUCCESS, buf_with_off b (cb_off b + n), buf_take n (buf_remaining b))).
+Proof.
+  intros Hi Hn. unfold buf_fetch_bytes. rewrite buf_fetch_ok by exact Hi. cbn [fst snd].
+  replace (n =? 0) with false by (symmetry; apply Z.eqb_neq; lia). cbn [orb].
+  destruct (Z.ltb_spec (cb_dlen b - cb_off b) n) as [Hlt | Hge]; [reflexivity|].
+  rewrite buf_read_remaining by (try exact Hi; lia). cbn [bind].
+  rewrite buf_consume_ok by (try exact Hi; lia). cbn [bind].
+  replace (cb_dlen b - cb_off b <? n) with false by (symmetry; apply Z.ltb_ge; lia). reflexivity.
+Qed.
+
+(* a fresh buffer has to ask the allocator for its first byte *)
+Lemma buf_append_empty_fail junk bytes : 0 < buf_zlen bytes < BUF_ALLOC_LIMIT ->
+  buf_append junk false buf_empty bytes = Ok (ARES_ENOMEM, buf_empty).
+Proof.
+  intros Hl. unfold buf_append. replace (buf_zlen bytes =? 0) with false by (symmetry; apply Z.eqb_neq; lia).
+  unfold buf_ensure_space. change (buf_is_const buf_empty) with (Ok 0). cbn [bind Z.eqb negb].
+  change (cb_alloc buf_empty) with 0. change (cb_dlen buf_empty) with 0. change (buf_w64 (0 - 0)) with 0.
+  rewrite buf_w64_small by (buf_consts; lia).
+  replace (0 >=? buf_zlen bytes + 1) with false by (symmetry; rewrite Z.geb_leb; apply Z.leb_gt; lia).
+  change (buf_reclaim buf_empty) with (Ok buf_empty). cbn [bind].
+  change (cb_alloc buf_empty) with 0. change (cb_dlen buf_empty) with 0. change (buf_w64 (0 - 0)) with 0.
+  replace (0 >=? buf_zlen bytes + 1) with false by (symmetry; rewrite Z.geb_leb; apply Z.leb_gt; lia).
+  cbn [Z.eqb].
+  destruct (buf_grow_loop_ok 64 16 0 (buf_zlen bytes + 1)) as (a & Hloop & _);
+    try (buf_consts; change (2 ^ 63) with 9223372036854775808; change (2 ^ Z.of_nat 64) with 18446744073709551616; lia).
+  rewrite Hloop. cbn [bind]. unfold buf_alloc_answer. cbn [andb fst snd Z.eqb negb ARES_ENOMEM ARES_SUCCESS]. reflexivity.
+Qed.
+
+Lemma buf_finish_str_empty junk ok :
+  exists b', buf_finish_str junk ok buf_empty = Ok (if ok then Some [0] else None, b').
+Proof. destruct ok; eexists; vm_compute; reflexivity. Qed.
+
+Lemma bufs_advance_0 s : bufs_advance s 0 = s.
+Proof. destruct s as [p q t c]. unfold bufs_advance. cbn [bs_pre bs_post bs_tag bs_const]. rewrite buf_take_0, buf_drop_0 by lia. rewrite app_nil_r. reflexivity. Qed.
+
+(* ares_buf_parse_dns_binstr / _str: ONE length-prefixed character-string.  Success: exactly the
+   string bytes (plus the terminator when wanted), the cursor behind them.  Failure: the length
+   byte stays consumed when the failure is detected after it was read (length beyond
+   remaining_len or beyond the data, non-printable byte, allocation failure for the copy);
+   nothing is consumed when remaining_len is 0, the first allocation fails or the buffer is
+   empty.  Never UB. *)
+Theorem buf_parse_dns_binstr_refines junk ok1 ok2 b rl want validate :
+  buf_inv b -> buf_bytes_ok (buf_remaining b) -> 0 <= rl < 2 ^ 64 ->
+  exists st b' out, buf_parse_dns_binstr_int junk ok1 ok2 b rl want validate = Ok (st, b', out) /\
+    buf_inv b' /\ cb_mem b' = cb_mem b /\
+    (st, buf_abs b', out) = bufs_parse_binstr ok1 ok2 (buf_abs b) rl want validate.
+Proof.
+  intros Hi Hb Hrl. unfold buf_parse_dns_binstr_int, bufs_parse_binstr.
+  destruct (Z.eqb_spec rl 0) as [Hz | Hnz].
+  { exists ARES_EBADRESP, b, None. auto. }
+  rewrite buf_create_eq. destruct ok1; cbn [negb].
+  2:{ exists ARES_ENOMEM, b, None. auto. }
+  rewrite buf_fetch_bytes_ok by (try exact Hi; lia). cbn [bind].
+  rewrite buf_abs_post. pose proof (buf_remaining_zlen b Hi) as Hrz.
+  destruct (buf_remaining b) as [|len rest] eqn:Erem.
+  { change (buf_zlen (@nil Z)) with 0 in Hrz.
+    replace (cb_dlen b - cb_off b <? 1) with true by (symmetry; apply Z.ltb_lt; lia).
+    cbn [fst snd Z.eqb negb ARES_EBADRESP ARES_SUCCESS]. exists ARES_EBADRESP, b, None. auto. }
+  rewrite buf_zlen_cons in Hrz. pose proof (buf_zlen_nonneg rest) as Hrn.
+  replace (cb_dlen b - cb_off b <? 1) with false by (symmetry; apply Z.ltb_ge; lia).
+  cbn [fst snd Z.eqb negb ARES_SUCCESS]. rewrite buf_take_1.
+  set (b1 := buf_with_off b (cb_off b + 1)).
+  destruct (buf_advance_ok b 1 Hi ltac:(lia)) as (_ & Hi1 & Ha1). fold b1 in Hi1, Ha1.
+  assert (buf_remaining b1 = rest) as Er1.
+  { change (buf_remaining b1) with (bs_post (buf_abs b1)). rewrite Ha1. unfold bufs_advance. cbn [bs_post].
+    rewrite buf_abs_post, Erem. reflexivity. }
+  assert (0 <= len < 256) as Hlen by (inversion Hb; assumption).
+  assert (cb_dlen b1 - cb_off b1 = buf_zlen rest) as Hl1 by (rewrite <- Er1; symmetry; apply buf_remaining_zlen; exact Hi1).
+  rewrite buf_w64_small by lia.
+  destruct (Z.gtb_spec len (rl - 1)) as [Hbig | Hfit]; cbn [orb].
+  { exists ARES_EBADRESP, b1, None. split; [reflexivity|]. split; [exact Hi1|]. split; [reflexivity|]. rewrite Ha1. reflexivity. }
+  destruct (Z.eqb_spec len 0) as [Hl0 | Hlne].
+  - (* the empty string *)
+    subst len. cbn [bind fst snd Z.eqb negb ARES_SUCCESS orb].
+    replace (buf_zlen rest <? 0) with false by (symmetry; apply Z.ltb_ge; lia).
+    rewrite buf_take_0 by lia. cbn [forallb negb]. rewrite andb_false_r.
+    destruct want; cbn [negb andb].
+    + destruct (buf_finish_str_empty junk ok2) as (bz & Hfz). rewrite Hfz. cbn [bind fst].
+      destruct ok2; cbn [negb].
+      * exists ARES_SUCCESS, b1, (Some [0]). split; [reflexivity|]. split; [exact Hi1|]. split; [reflexivity|].
+        rewrite bufs_advance_0, Ha1. reflexivity.
+      * exists ARES_ENOMEM, b1, None. split; [reflexivity|]. split; [exact Hi1|]. split; [reflexivity|]. rewrite Ha1. reflexivity.
+    + exists ARES_SUCCESS, b1, None. split; [reflexivity|]. split; [exact Hi1|]. split; [reflexivity|].
+      rewrite bufs_advance_0, Ha1. reflexivity.
+  - replace (len =? 0) with false by (symmetry; apply Z.eqb_neq; exact Hlne).
+    rewrite buf_len_ok by exact Hi1. cbn [bind]. rewrite Hl1.
+    destruct (Z.ltb_spec (buf_zlen rest) len) as [Hshort | Henough].
+    + (* the length byte points beyond the data *)
+      replace (buf_zlen rest >=? len) with false by (symmetry; rewrite Z.geb_leb; apply Z.leb_gt; lia).
+      rewrite andb_false_r. cbn [bind].
+      destruct want.
+      * unfold buf_fetch_bytes_into_buf. rewrite buf_fetch_ok by exact Hi1. cbn [fst snd]. rewrite Hl1.
+        replace (buf_zlen rest <? len) with true by (symmetry; apply Z.ltb_lt; lia). rewrite orb_true_r.
+        cbn [bind fst snd Z.eqb negb ARES_EBADRESP ARES_SUCCESS orb].
+        exists ARES_EBADRESP, b1, None. split; [reflexivity|]. split; [exact Hi1|]. split; [reflexivity|]. rewrite Ha1. reflexivity.
+      * rewrite buf_consume_ok by (try exact Hi1; lia). rewrite Hl1.
+        replace (buf_zlen rest <? len) with true by (symmetry; apply Z.ltb_lt; lia).
+        cbn [bind fst snd Z.eqb negb ARES_EBADRESP ARES_SUCCESS orb].
+        exists ARES_EBADRESP, b1, None. split; [reflexivity|]. split; [exact Hi1|]. split; [reflexivity|]. rewrite Ha1. reflexivity.
+    + replace (buf_zlen rest >=? len) with true by (symmetry; rewrite Z.geb_leb; apply Z.leb_le; lia).
+      rewrite andb_true_r.
+      assert (buf_read b1 (cb_off b1) len = Ok (buf_take len rest)) as Hrd
+        by (rewrite buf_read_remaining by (try exact Hi1; lia); rewrite Er1; reflexivity).
+      assert (buf_zlen (buf_take len rest) = len) as Htz by (apply buf_take_zlen; lia).
+      destruct (buf_advance_ok b1 len Hi1 ltac:(lia)) as (Hc2 & Hi2 & Ha2).
+      assert ((do bad <- (if validate then do data <- buf_read b1 (cb_off b1) len; Ok (negb (forallb buf_isprint data)) else Ok false);
+               if bad then Ok (ARES_EBADSTR, b1, buf_empty)
+               else if want then buf_fetch_bytes_into_buf junk ok2 b1 buf_empty len
+                    else do c <- buf_consume b1 len; Ok (fst c, snd c, buf_empty)) =
+              (if validate && negb (forallb buf_isprint (buf_take len rest)) then Ok (ARES_EBADSTR, b1, buf_empty)
+               else if want then buf_fetch_bytes_into_buf junk ok2 b1 buf_empty len
+                    else Ok (ARES_SUCCESS, buf_with_off b1 (cb_off b1 + len), buf_empty))) as Hmid.
+      { destruct validate; cbn [andb]; [rewrite Hrd; cbn [bind]|cbn [bind]];
+          (destruct (negb (forallb buf_isprint (buf_take len rest))) || idtac); try reflexivity;
+          (destruct want; [reflexivity | rewrite Hc2; reflexivity]). }
+      rewrite Hmid. clear Hmid.
+      destruct (validate && negb (forallb buf_isprint (buf_take len rest))).
+      { cbn [bind fst snd Z.eqb negb ARES_EBADSTR ARES_SUCCESS orb].
+        exists ARES_EBADSTR, b1, None. split; [reflexivity|]. split; [exact Hi1|]. split; [reflexivity|]. rewrite Ha1. reflexivity. }
+      destruct want; cbn [negb andb].
+      * unfold buf_fetch_bytes_into_buf. rewrite buf_fetch_ok by exact Hi1. cbn [fst snd]. rewrite Hl1.
+        replace (len =? 0) with false by (symmetry; apply Z.eqb_neq; exact Hlne).
+        replace (buf_zlen rest <? len) with false by (symmetry; apply Z.ltb_ge; lia). cbn [orb].
+        rewrite Hrd. cbn [bind].
+        destruct ok2; cbn [negb].
+        -- destruct (buf_append_refines junk true buf_empty (buf_take len rest) buf_empty_inv) as (st & d & Hap & Hid & Hin & _ & Hwhy);
+             [rewrite Htz; buf_consts; lia|].
+           assert (st = ARES_SUCCESS /\ buf_abs d = mkBufSpec [] (buf_take len rest) None false) as [Hst Had].
+           { unfold bufs_append_alts in Hin. rewrite Htz in Hin.
+             replace (len =? 0) with false in Hin by (symmetry; apply Z.eqb_neq; exact Hlne).
+             rewrite buf_empty_abs in Hin. cbn [bufs_create bs_const] in Hin.
+             destruct Hin as [Hin | [Hin | [Hin | [Hin | []]]]];
+               pose proof (f_equal fst Hin) as Hs; pose proof (f_equal snd Hin) as Hab; cbn [fst snd] in Hs, Hab; subst st;
+               try (destruct (Hwhy eq_refl) as [Hx | Hx]; [discriminate Hx | rewrite Htz in Hx; change (cb_dlen buf_empty) with 0 in Hx; buf_consts; lia]);
+               (split; [reflexivity | rewrite <- Hab; reflexivity]). }
+           subst st. rewrite Hap. cbn [bind fst snd Z.eqb negb ARES_SUCCESS orb]. rewrite Hc2. cbn [bind fst snd Z.eqb negb orb].
+           destruct (buf_finish_refines junk true d true Hid) as (r & d' & Hfin & _ & _ & Hfa).
+           cbn beta iota in Hfin. rewrite Hfin. cbn [bind fst].
+           unfold bufs_finish_alts in Hfa. rewrite Had in Hfa. cbn [bs_const bufs_tagged bs_tag bs_post app] in Hfa.
+           unfold bufs_nothing_held in Hfa. cbn [bs_pre bs_post bs_const app] in Hfa. rewrite Htz in Hfa.
+           replace (len =? 0) with false in Hfa by (symmetry; apply Z.eqb_neq; exact Hlne). cbn [andb] in Hfa.
+           destruct Hfa as [Hfa | []]. destruct r as [bytes|]; [|discriminate Hfa].
+           injection Hfa as Hbytes. subst bytes.
+           exists ARES_SUCCESS, (buf_with_off b1 (cb_off b1 + len)), (Some (buf_take len rest ++ [0])).
+           split; [reflexivity|]. split; [exact Hi2|]. split; [reflexivity|]. rewrite Ha2, Ha1. reflexivity.
+        -- rewrite buf_append_empty_fail by (rewrite Htz; buf_consts; lia).
+           cbn [bind fst snd Z.eqb negb ARES_ENOMEM ARES_SUCCESS orb].
+           exists ARES_ENOMEM, b1, None. split; [reflexivity|]. split; [exact Hi1|]. split; [reflexivity|]. rewrite Ha1. reflexivity.
+      * cbn [bind fst snd Z.eqb negb ARES_SUCCESS orb].
+        exists ARES_SUCCESS, (buf_with_off b1 (cb_off b1 + len)), None.
+        split; [reflexivity|]. split; [exact Hi2|]. split; [reflexivity|]. rewrite Ha2, Ha1. reflexivity.
+Qed.
+
+(* ------------------------------------------------------------------------------------- *)
 (* One operation of the API: the model step refines the specification                      *)
 (* ------------------------------------------------------------------------------------- *)
 Definition buf_op_ok (op : buf_op) : Prop :=
@@ -1674,6 +2158,9 @@ Definition buf_op_ok (op : buf_op) : Prop :=
   | BopFetchBytesDup _ n _ | BopFetchStrDup _ n | BopFetchIntoBuf _ n => 0 <= n
   | BopSetLength len fill => 0 <= len /\ 0 <= fill < 256
   | BopSplit _ delims flags max_sections => 0 <= flags /\ 0 <= max_sections
+  | BopAppendNumDec _ num len | BopAppendNumHex _ num len => 0 <= num < 2 ^ 64 /\ 0 <= len < BUF_ALLOC_LIMIT
+  | BopParseBinstr _ _ rl _ _ => 0 <= rl < 2 ^ 64
+  | BopSplitFailAt n delims flags max_sections => 0 <= n /\ 0 <= flags /\ 0 <= max_sections
   | _ => True
   end.
 
@@ -1704,6 +2191,12 @@ Hypothesis split_refines : forall ok_arr b delims flags max_sections,
   exists st b' pieces, buf_split ok_arr (fun _ => true) b delims flags max_sections = Ok (st, b', pieces) /\
     buf_inv b' /\ cb_mem b' = cb_mem b /\
     In (mkBufObs st [buf_zlen pieces] pieces, buf_abs b') (bufs_split_alts ok_arr (buf_abs b) delims flags max_sections).
+(* ... and so is the split with a refused allocation request (buf_split_fail_at_refines) *)
+Hypothesis split_fail_refines : forall n b delims flags max_sections,
+  buf_inv b -> 0 <= n -> 0 <= flags -> 0 <= max_sections ->
+  exists st b' pieces, buf_split_fail_at n b delims flags max_sections = Ok (st, b', pieces) /\
+    buf_inv b' /\ cb_mem b' = cb_mem b /\
+    In (mkBufObs st [buf_zlen pieces] pieces, buf_abs b') (bufs_split_fail_alts n (buf_abs b) delims flags max_sections).
 
 Lemma buf_step_refines_gen b op :
   buf_inv b -> buf_bytes_ok (cb_mem b) -> buf_op_ok op -> bufs_contract (buf_abs b) op = true ->
@@ -1909,6 +2402,30 @@ Proof.
         eexists _, _. split; [reflexivity|]. split; [exact Hci|]. split; [exact Hbs|].
         rewrite Hca. left. reflexivity.
       * eexists _, b. split; [reflexivity|]. split; [exact Hi|]. split; [exact Hb|]. left. reflexivity.
+  - (* BopAppendNumDec *)
+    destruct Hop as [Hn Hl]. rewrite buf_append_num_dec_eq by assumption.
+    destruct (buf_append_refines junk ok b (bufs_num_bytes 10 bufs_dec_char num len) Hi) as (st & b' & He & Hi' & Hin & Hb' & _).
+    { apply buf_num_bytes_lim; [lia | exact Hn | exact Hl]. }
+    rewrite He. cbn [bind fst snd]. eexists _, b'. split; [reflexivity|]. split; [exact Hi'|].
+    split; [apply Hb'; try assumption; apply bufs_num_bytes_ok_dec|]. apply in_map_iff. exists (st, buf_abs b'). auto.
+  - (* BopAppendNumHex *)
+    destruct Hop as [Hn Hl]. rewrite buf_append_num_hex_eq by assumption.
+    destruct (buf_append_refines junk ok b (bufs_num_bytes 16 bufs_hex_char num len) Hi) as (st & b' & He & Hi' & Hin & Hb' & _).
+    { apply buf_num_bytes_lim; [lia | exact Hn | exact Hl]. }
+    rewrite He. cbn [bind fst snd]. eexists _, b'. split; [reflexivity|]. split; [exact Hi'|].
+    split; [apply Hb'; try assumption; apply bufs_num_bytes_ok_hex|]. apply in_map_iff. exists (st, buf_abs b'). auto.
+  - (* BopParseBinstr *)
+    destruct (buf_parse_dns_binstr_refines junk ok1 ok2 b remaining_len want validate Hi (buf_remaining_bytes_ok b Hb) Hop)
+      as (st & b' & out & He & Hi' & Hm & Hs).
+    rewrite He. cbn [bind fst snd].
+    exists (match out with None => mkBufObs st [] [] | Some bytes => mkBufObs st [buf_zlen bytes - 1] [bytes] end), b'.
+    split; [destruct out; reflexivity|]. split; [exact Hi'|]. split; [rewrite Hm; exact Hb|].
+    rewrite <- Hs. cbn [fst snd]. left. destruct out; reflexivity.
+  - (* BopSplitFailAt *)
+    destruct Hop as (Hn & Hfl & Hmx).
+    destruct (split_fail_refines n b delims flags max_sections Hi Hn Hfl Hmx) as (st & b' & pieces & He & Hi' & Hm & Hin).
+    rewrite He. cbn [bind fst snd]. eexists _, b'. split; [reflexivity|]. split; [exact Hi'|].
+    split; [rewrite Hm; exact Hb | exact Hin].
 Qed.
 End StepRefines.
 
@@ -1940,6 +2457,11 @@ Hypothesis split_refines : forall ok_arr b delims flags max_sections,
   exists st b' pieces, buf_split ok_arr (fun _ => true) b delims flags max_sections = Ok (st, b', pieces) /\
     buf_inv b' /\ cb_mem b' = cb_mem b /\
     In (mkBufObs st [buf_zlen pieces] pieces, buf_abs b') (bufs_split_alts ok_arr (buf_abs b) delims flags max_sections).
+Hypothesis split_fail_refines : forall n b delims flags max_sections,
+  buf_inv b -> 0 <= n -> 0 <= flags -> 0 <= max_sections ->
+  exists st b' pieces, buf_split_fail_at n b delims flags max_sections = Ok (st, b', pieces) /\
+    buf_inv b' /\ cb_mem b' = cb_mem b /\
+    In (mkBufObs st [buf_zlen pieces] pieces, buf_abs b') (bufs_split_fail_alts n (buf_abs b) delims flags max_sections).
 
 Lemma buf_run_refines_gen ops : forall b states,
   buf_inv b -> buf_bytes_ok (cb_mem b) -> Forall buf_op_ok ops -> In (buf_abs b) states ->
@@ -1950,7 +2472,7 @@ Proof.
   - inversion Hops as [|x l Hop Hrest]; subst.
     cbn [buf_run_checked bufs_accepts].
     destruct (bufs_contract (buf_abs b) op) eqn:Hc.
-    + destruct (buf_step_refines_gen junk junk_bytes split_refines b op Hi Hb Hop Hc) as (o & b' & Hs & Hi' & Hb' & Halt).
+    + destruct (buf_step_refines_gen junk junk_bytes split_refines split_fail_refines b op Hi Hb Hop Hc) as (o & b' & Hs & Hi' & Hb' & Halt).
       rewrite Hs. cbn [bind fst snd]. rewrite buf_observe_refines by exact Hi'. cbn [bind].
       pose proof (bufs_monitor_step_in states op (buf_abs b) o (buf_abs b') Hin Halt) as Hmon.
       destruct (IH b' (bufs_monitor_step states op o (bufs_view (buf_abs b'))) Hi' Hb' Hrest Hmon) as (tl & Hrun & Hacc).
@@ -2310,6 +2832,283 @@ Proof.
 Qed.
 
 (* ------------------------------------------------------------------------------------- *)
+(* split with an arbitrary per-piece allocation oracle: allocation failure in the MIDDLE     *)
+(* ------------------------------------------------------------------------------------- *)
+(* the buffer with only the cursor and the tag changed *)
+Definition buf_at (b : cbuf) (o t : Z) : cbuf :=
+  mkBuf (cb_mem b) (cb_dlen b) (cb_alloc b) o t (cb_hasdata b) (cb_hasabuf b).
+
+Lemma buf_at_same b : buf_at b (cb_off b) (cb_tag b) = b.
+Proof. destruct b; reflexivity. Qed.
+
+Lemma buf_at_inv b o t : buf_inv b -> 0 <= t <= o -> o <= cb_dlen b -> buf_inv (buf_at b o t).
+Proof.
+  intros (Ho & Ht & Hs) H1 H2. split; [cbn; lia|]. split; [right; cbn; lia | exact Hs].
+Qed.
+
+Lemma buf_at_remaining b o t : buf_inv b -> cb_off b <= o <= cb_dlen b ->
+  buf_remaining (buf_at b o t) = buf_drop (o - cb_off b) (buf_remaining b) /\
+  buf_consumed (buf_at b o t) = buf_consumed b ++ buf_take (o - cb_off b) (buf_remaining b).
+Proof.
+  intros Hi Ho. pose proof (buf_data_zlen b Hi) as Hd. destruct Hi as (Hob & _).
+  unfold buf_remaining, buf_consumed. change (buf_data (buf_at b o t)) with (buf_data b). cbn [buf_at cb_off].
+  split.
+  - rewrite buf_drop_drop by lia. f_equal. lia.
+  - replace o with (cb_off b + (o - cb_off b)) at 1 by lia. apply buf_take_add; lia.
+Qed.
+
+Lemma buf_consume_at b o t n : buf_inv (buf_at b o t) -> 0 <= n <= cb_dlen b - o ->
+  buf_consume (buf_at b o t) n = Ok (ARES_SUCCESS, buf_at b (o + n) t).
+Proof.
+  intros Hi Hn. rewrite buf_consume_ok by (try exact Hi; lia). cbn [buf_at cb_dlen cb_off].
+  replace (cb_dlen b - o <? n) with false by (symmetry; apply Z.ltb_ge; lia). reflexivity.
+Qed.
+
+Lemma buf_until_charset_at b cs : buf_inv b ->
+  exists i o2, buf_consume_until_charset b cs false = Ok (i, buf_at b o2 (cb_tag b)) /\
+               cb_off b <= o2 <= cb_dlen b.
+Proof.
+  intros Hi. assert (0 <= cb_off b <= cb_dlen b) as Hob by (destruct Hi as (Ho & _); exact Ho).
+  unfold buf_consume_until_charset. rewrite buf_fetch_ok by exact Hi. cbn [fst snd].
+  destruct ((cb_dlen b - cb_off b =? 0) || (buf_zlen cs =? 0)) eqn:Eg.
+  - exists 0, (cb_off b). rewrite buf_at_same. split; [reflexivity | lia].
+  - apply orb_false_iff in Eg. destruct Eg as [E0 _].
+    assert (fst (buf_fetch b) = false) as Hf by (rewrite buf_fetch_ok by exact Hi; exact E0).
+    pose proof (buf_scan_ok b Hi Hf) as Hs. rewrite buf_fetch_ok in Hs by exact Hi. cbn [snd] in Hs.
+    rewrite Hs. cbn [bind andb].
+    pose proof (buf_span_bounds (fun c => negb (buf_in_charset cs c)) (buf_remaining b)) as Hsb.
+    rewrite buf_remaining_zlen in Hsb by exact Hi.
+    set (k := buf_span (fun c => negb (buf_in_charset cs c)) (buf_remaining b)) in *.
+    unfold buf_consume_ret. destruct (k >? 0).
+    + destruct (buf_advance_ok b k Hi) as (Hc & _); [lia|]. rewrite Hc. cbn [bind snd].
+      exists k, (cb_off b + k). split; [destruct b; reflexivity | lia].
+    + exists k, (cb_off b). rewrite buf_at_same. split; [reflexivity | lia].
+Qed.
+
+Definition buf_split_trimmed (flags : Z) (sect : list Z) : list Z :=
+  let sect := if buf_flag flags ARES_BUF_SPLIT_LTRIM then buf_ltrim sect else sect in
+  if buf_flag flags ARES_BUF_SPLIT_RTRIM then buf_rtrim sect else sect.
+Definition buf_split_keeps (flags : Z) (arr : list (list Z)) (sect : list Z) : bool :=
+  (negb (buf_zlen sect =? 0) || buf_flag flags ARES_BUF_SPLIT_ALLOW_BLANK) &&
+  (negb (buf_flag flags ARES_BUF_SPLIT_NO_DUPLICATES) || negb (buf_split_isdup arr sect flags)).
+
+(* one pass of the while loop: the section that is collected does not depend on the allocator *)
+Lemma buf_split_loop_step delims flags max_sections b first arr :
+  buf_inv b -> cb_dlen b - cb_off b <> 0 ->
+  exists o2 t2 sect, cb_off b <= t2 <= o2 /\ o2 <= cb_dlen b /\
+    forall okp f,
+      buf_split_loop (S f) okp b delims flags max_sections first arr =
+      if buf_split_keeps flags arr sect
+      then if okp (length arr)
+           then buf_split_loop f okp (buf_at b o2 t2) delims flags max_sections false (arr ++ [sect])
+           else Ok (ARES_ENOMEM, buf_at b o2 t2, [])
+      else buf_split_loop f okp (buf_at b o2 t2) delims flags max_sections false arr.
+Proof.
+  intros Hi Hne.
+  assert (0 <= cb_off b <= cb_dlen b) as Hob by (destruct Hi as (Ho & _); exact Ho).
+  pose proof (buf_inv_mem_len b Hi) as [_ Hlim].
+  (* the buffer holds data *)
+  assert (cb_hasdata b = true) as Hd.
+  { destruct Hi as (_ & _ & [Hs | [Hs | Hs]]); [destruct Hs as (_ & _ & _ & Hz & _); lia | apply Hs | apply Hs]. }
+  (* after tagging / eating the delimiter: offset o1, tag t1 *)
+  set (o1 := if first then cb_off b else cb_off b + 1).
+  set (t1 := if first then cb_off b else if buf_flag flags ARES_BUF_SPLIT_KEEP_DELIMS then cb_off b else cb_off b + 1).
+  assert (cb_off b <= t1 <= o1 /\ o1 <= cb_dlen b) as Hb1.
+  { unfold o1, t1. destruct first; [lia|]. destruct (buf_flag flags ARES_BUF_SPLIT_KEEP_DELIMS); lia. }
+  assert (buf_inv (buf_at b o1 t1)) as Hi1 by (apply buf_at_inv; [exact Hi | lia | lia]).
+  assert ((if first then buf_tag b
+           else if buf_flag flags ARES_BUF_SPLIT_KEEP_DELIMS
+                then do t <- buf_tag b; do r <- buf_consume t 1; Ok (snd r)
+                else do r <- buf_consume b 1; buf_tag (snd r)) = Ok (buf_at b o1 t1)) as He1.
+  { unfold o1, t1. destruct first; [reflexivity|].
+    destruct (buf_flag flags ARES_BUF_SPLIT_KEEP_DELIMS).
+    - change (buf_tag b) with (Ok (buf_at b (cb_off b) (cb_off b))). cbn [bind].
+      rewrite buf_consume_at by (try (apply buf_at_inv; [exact Hi | lia | lia]); lia). reflexivity.
+    - rewrite <- (buf_at_same b) at 1. rewrite buf_consume_at by (try (rewrite buf_at_same; exact Hi); lia).
+      reflexivity. }
+  (* the section *)
+  assert (exists o2, o1 <= o2 <= cb_dlen b /\
+            (if negb (max_sections =? 0) && (buf_zlen arr >=? buf_w64 (max_sections - 1))
+             then do l1 <- buf_len (buf_at b o1 t1); do r <- buf_consume (buf_at b o1 t1) l1; Ok (snd r)
+             else do r <- buf_consume_until_charset (buf_at b o1 t1) delims false; Ok (snd r)) = Ok (buf_at b o2 t1))
+    as (o2 & Hb2 & He2).
+  { destruct (negb (max_sections =? 0) && (buf_zlen arr >=? buf_w64 (max_sections - 1))).
+    - rewrite buf_len_ok by exact Hi1. cbn [bind buf_at cb_dlen cb_off].
+      rewrite buf_consume_at by (try exact Hi1; lia). cbn [bind snd].
+      exists (cb_dlen b). split; [lia|]. f_equal. f_equal. lia.
+    - destruct (buf_until_charset_at (buf_at b o1 t1) delims Hi1) as (i & o2 & Hc & Ho2).
+      rewrite Hc. cbn [bind snd buf_at cb_tag cb_off cb_dlen] in *. exists o2. split; [lia | reflexivity]. }
+  assert (buf_inv (buf_at b o2 t1)) as Hi2 by (apply buf_at_inv; [exact Hi | lia | lia]).
+  assert (cb_tag (buf_at b o2 t1) <> BUF_SIZE_MAX) as Htag2 by (cbn [buf_at cb_tag]; buf_consts; lia).
+  destruct (buf_tagged_read (buf_at b o2 t1) Hi2 Htag2) as (_ & _ & Hr2).
+  cbn [buf_at cb_tag cb_off] in Hr2.
+  exists o2, t1, (buf_split_trimmed flags (bufs_tagged (buf_abs (buf_at b o2 t1)))).
+  split; [lia|]. split; [lia|]. intros okp f.
+  cbn [buf_split_loop]. rewrite buf_len_ok by exact Hi. cbn [bind].
+  replace (cb_dlen b - cb_off b =? 0) with false by (symmetry; apply Z.eqb_neq; exact Hne).
+  rewrite He1. cbn [bind]. rewrite He2. cbn [bind].
+  unfold buf_tag_fetch. cbn [buf_at cb_tag cb_hasdata cb_off].
+  replace (t1 =? BUF_SIZE_MAX) with false by (symmetry; apply Z.eqb_neq; buf_consts; lia).
+  rewrite Hd. cbn [orb negb]. rewrite buf_w64_small by (buf_consts; lia).
+  rewrite Hr2. cbn [bind]. unfold buf_split_keeps, buf_split_trimmed.
+  set (sect0 := bufs_tagged (buf_abs (buf_at b o2 t1))).
+  set (sect1 := if buf_flag flags ARES_BUF_SPLIT_LTRIM then buf_ltrim sect0 else sect0).
+  set (sect2 := if buf_flag flags ARES_BUF_SPLIT_RTRIM then buf_rtrim sect1 else sect1).
+  destruct (negb (buf_zlen sect2 =? 0) || buf_flag flags ARES_BUF_SPLIT_ALLOW_BLANK); [|reflexivity].
+  destruct (negb (buf_flag flags ARES_BUF_SPLIT_NO_DUPLICATES) || negb (buf_split_isdup arr sect2 flags)); reflexivity.
+Qed.
+
+Lemma buf_split_loop_done delims flags max_sections okp f b first arr :
+  buf_inv b -> cb_dlen b - cb_off b = 0 ->
+  buf_split_loop (S f) okp b delims flags max_sections first arr = Ok (ARES_SUCCESS, b, arr).
+Proof.
+  intros Hi Hz. cbn [buf_split_loop]. rewrite buf_len_ok by exact Hi. cbn [bind]. rewrite Hz. reflexivity.
+Qed.
+
+(* the run with an arbitrary oracle next to the run in which every request is granted *)
+Lemma buf_split_loop_okp okp delims flags max_sections :
+  forall fuel b first arr st b' pieces, buf_inv b ->
+  buf_split_loop fuel (fun _ => true) b delims flags max_sections first arr = Ok (st, b', pieces) ->
+  st = ARES_SUCCESS /\ (exists ext, pieces = arr ++ ext) /\
+  ( (buf_split_loop fuel okp b delims flags max_sections first arr = Ok (st, b', pieces) /\
+     forall i, (length arr <= i < length pieces)%nat -> okp i = true)
+    \/
+    (exists k o t, (length arr <= k < length pieces)%nat /\ okp k = false /\
+       (forall i, (length arr <= i < k)%nat -> okp i = true) /\
+       buf_split_loop fuel okp b delims flags max_sections first arr = Ok (ARES_ENOMEM, buf_at b o t, []) /\
+       cb_off b <= t <= o /\ o <= cb_dlen b) ).
+Proof.
+  induction fuel as [|f IH]; intros b first arr st b' pieces Hi Hrun; [discriminate Hrun|].
+  destruct (Z.eq_dec (cb_dlen b - cb_off b) 0) as [Hz | Hnz].
+  - rewrite buf_split_loop_done in Hrun by assumption. injection Hrun as <- <- <-.
+    split; [reflexivity|]. split; [exists []; rewrite app_nil_r; reflexivity|]. left.
+    split; [apply buf_split_loop_done; assumption | intros i Hr; lia].
+  - destruct (buf_split_loop_step delims flags max_sections b first arr Hi Hnz) as (o2 & t2 & sect & Hb1 & Hb2 & Hstep).
+    assert (buf_inv (buf_at b o2 t2)) as Hi2.
+    { assert (0 <= cb_off b) by (destruct Hi as (Ho & _); lia). apply buf_at_inv; [exact Hi | lia | lia]. }
+    rewrite Hstep in Hrun. rewrite Hstep.
+    destruct (buf_split_keeps flags arr sect).
+    + (* the section is a piece *)
+      destruct (IH (buf_at b o2 t2) false (arr ++ [sect]) st b' pieces Hi2 Hrun) as (Hst & (ext & Hext) & Hdich).
+      split; [exact Hst|]. split; [exists (sect :: ext); rewrite Hext, <- app_assoc; reflexivity|].
+      assert (length pieces = (length arr + 1 + length ext)%nat) as Hlen
+        by (rewrite Hext, !app_length; cbn [length]; lia).
+      rewrite app_length in Hdich. cbn [length] in Hdich.
+      destruct (okp (length arr)) eqn:Eok.
+      * destruct Hdich as [(Hsame & Hall) | (k & o & t & Hk & Hkf & Hbefore & Hfail & Hbt & Hbo)].
+        -- left. split; [exact Hsame|]. intros i Hr.
+           destruct (Nat.eq_dec i (length arr)) as [-> | Hne]; [exact Eok | apply Hall; lia].
+        -- right. exists k, o, t. split; [lia|]. split; [exact Hkf|]. split.
+           ++ intros i Hr. destruct (Nat.eq_dec i (length arr)) as [-> | Hne]; [exact Eok | apply Hbefore; lia].
+           ++ split; [exact Hfail|]. cbn [buf_at cb_off cb_dlen] in Hbt, Hbo. split; lia.
+      * right. exists (length arr), o2, t2. split; [lia|]. split; [exact Eok|].
+        split; [intros i Hr; lia|]. split; [reflexivity|]. split; lia.
+    + (* dropped: blank or duplicate *)
+      destruct (IH (buf_at b o2 t2) false arr st b' pieces Hi2 Hrun) as (Hst & Hext & Hdich).
+      split; [exact Hst|]. split; [exact Hext|].
+      destruct Hdich as [Hl | (k & o & t & Hk & Hkf & Hbefore & Hfail & Hbt & Hbo)]; [left; exact Hl|].
+      right. exists k, o, t. split; [exact Hk|]. split; [exact Hkf|]. split; [exact Hbefore|].
+      split; [exact Hfail|]. cbn [buf_at cb_off cb_dlen] in Hbt, Hbo. split; lia.
+Qed.
+
+(* ares_buf_split under ANY behaviour of the allocator during the call ([okp i] = the requests
+   for the i-th piece are granted).  Either no request of a piece the split produces is refused
+   and the result is the result of the run in which nothing is refused; or the requests of the
+   first k pieces are granted, one for piece k is refused, and the call returns ARES_ENOMEM
+   WITHOUT pieces (the k finished ones are destroyed with the array).  In that case nothing of
+   the buffer's memory, data_len, alloc_buf_len or pointers has changed; NOT restored are the
+   cursor - it stays behind the section of piece k, inside the input - and the tag: the
+   caller's tag is overwritten with the start of that section (as it is on success).  The
+   remaining bytes are a suffix of the remaining bytes before the call.  Never UB, never out
+   of fuel. *)
+Theorem buf_split_okp okp b delims flags max_sections :
+  buf_inv b -> 0 <= flags -> 0 <= max_sections ->
+  exists st b' pieces,
+    buf_split true (fun _ => true) b delims flags max_sections = Ok (st, b', pieces) /\
+    ( (buf_split true okp b delims flags max_sections = Ok (st, b', pieces) /\
+       forall i, (i < length pieces)%nat -> okp i = true)
+      \/
+      (exists k o t, (k < length pieces)%nat /\ okp k = false /\ (forall i, (i < k)%nat -> okp i = true) /\
+         buf_split true okp b delims flags max_sections = Ok (ARES_ENOMEM, buf_at b o t, []) /\
+         cb_off b <= t <= o /\ o <= cb_dlen b /\ buf_inv (buf_at b o t) /\
+         buf_remaining (buf_at b o t) = buf_drop (o - cb_off b) (buf_remaining b) /\
+         buf_consumed (buf_at b o t) = buf_consumed b ++ buf_take (o - cb_off b) (buf_remaining b)) ).
+Proof.
+  intros Hi Hf Hm.
+  destruct (buf_split_refines true b delims flags max_sections Hi Hf Hm) as (st & b' & pieces & He & _).
+  exists st, b', pieces. split; [exact He|].
+  unfold buf_split in *. destruct (buf_zlen delims =? 0); [left; split; [exact He | injection He as _ _ <-; intros i Hr; cbn [length] in Hr; lia]|].
+  cbn [negb] in *. rewrite buf_len_ok in * by exact Hi. cbn [bind] in *.
+  destruct (buf_split_loop_okp okp delims flags max_sections _ b true [] st b' pieces Hi He) as (_ & _ & Hdich).
+  destruct Hdich as [(Hsame & Hall) | (k & o & t & Hk & Hkf & Hbefore & Hfail & Hbt & Hbo)].
+  - left. split; [exact Hsame|]. intros i Hr. apply Hall. cbn [length]. lia.
+  - right. exists k, o, t. cbn [length] in Hk. split; [lia|]. split; [exact Hkf|].
+    split; [intros i Hr; apply Hbefore; cbn [length]; lia|]. split; [exact Hfail|].
+    assert (0 <= cb_off b) by (destruct Hi as (Ho & _); lia).
+    split; [exact Hbt|]. split; [exact Hbo|]. split; [apply buf_at_inv; [exact Hi | lia | lia]|].
+    apply buf_at_remaining; [exact Hi | lia].
+Qed.
+
+Lemma bufs_zseq_in from n i : (i < n)%nat -> In (from + Z.of_nat i) (bufs_zseq from n).
+Proof. intros H. unfold bufs_zseq. apply in_map_iff. exists i. split; [reflexivity|]. apply in_seq. lia. Qed.
+
+(* the split with the n-th allocation request refused, against the byte-queue specification *)
+Theorem buf_split_fail_at_refines n b delims flags max_sections :
+  buf_inv b -> 0 <= n -> 0 <= flags -> 0 <= max_sections ->
+  exists st b' pieces, buf_split_fail_at n b delims flags max_sections = Ok (st, b', pieces) /\
+    buf_inv b' /\ cb_mem b' = cb_mem b /\
+    In (mkBufObs st [buf_zlen pieces] pieces, buf_abs b') (bufs_split_fail_alts n (buf_abs b) delims flags max_sections).
+Proof.
+  intros Hi Hn Hf Hm. unfold buf_split_fail_at, bufs_split_fail_alts.
+  destruct (Z.eqb_spec n 0) as [-> | Hne]; cbn [negb].
+  { rewrite orb_true_r. cbn [orb].
+    replace (buf_split false (buf_split_fail_okp 0) b delims flags max_sections)
+      with (buf_split false (fun _ => true) b delims flags max_sections)
+      by (unfold buf_split; destruct (buf_zlen delims =? 0); reflexivity).
+    apply buf_split_refines; assumption. }
+  rewrite orb_false_r.
+  destruct (buf_split_refines true b delims flags max_sections Hi Hf Hm) as (st0 & b0 & pieces0 & He0 & Hi0 & Hm0 & Hin0).
+  destruct (buf_split_okp (buf_split_fail_okp n) b delims flags max_sections Hi Hf Hm) as (st & b' & pieces & He & Hdich).
+  rewrite He0 in He. injection He as <- <- <-.
+  destruct Hdich as [(Hsame & _) | (k & o & t & Hk & _ & _ & Hfail & Hbt & Hbo & Hio & Hrem & Hcons)].
+  - exists st0, b0, pieces0. split; [exact Hsame|]. split; [exact Hi0|]. split; [exact Hm0|].
+    destruct ((buf_zlen delims =? 0) || (bufs_len (buf_abs b) =? 0)); [exact Hin0 | apply in_or_app; left; exact Hin0].
+  - exists ARES_ENOMEM, (buf_at b o t), []. split; [exact Hfail|]. split; [exact Hio|]. split; [reflexivity|].
+    assert (((buf_zlen delims =? 0) || (bufs_len (buf_abs b) =? 0)) = false) as Hnd.
+    { apply orb_false_iff. unfold bufs_split_alts in Hin0. split.
+      - destruct (buf_zlen delims =? 0); [|reflexivity]. destruct Hin0 as [H | []].
+        injection H as _ _ Hp _. rewrite <- Hp in Hk. cbn [length] in Hk. lia.
+      - destruct (buf_zlen delims =? 0); [destruct Hin0 as [H | []]; injection H as _ _ Hp _; rewrite <- Hp in Hk; cbn [length] in Hk; lia|].
+        cbn [negb] in Hin0. destruct (bufs_len (buf_abs b) =? 0); [|reflexivity]. destruct Hin0 as [H | []].
+        injection H as _ _ Hp _. rewrite <- Hp in Hk. cbn [length] in Hk. lia. }
+    rewrite Hnd. apply in_or_app. right.
+    assert (0 <= cb_off b) as Ho0 by (destruct Hi as (Ho & _); lia).
+    pose proof (buf_remaining_zlen b Hi) as Hrz.
+    apply in_flat_map. exists (o - cb_off b). split.
+    + replace (o - cb_off b) with (0 + Z.of_nat (Z.to_nat (o - cb_off b))) at 1 by lia. apply bufs_zseq_in.
+      unfold bufs_len. rewrite buf_abs_post, Hrz. lia.
+    + apply in_map_iff. exists (t - cb_off b). split.
+      * f_equal. rewrite buf_abs_pre, buf_abs_post. unfold bufs_position. rewrite buf_abs_pre, buf_consumed_zlen by exact Hi.
+        rewrite <- Hrem, <- Hcons. unfold buf_abs. cbn [buf_at cb_tag cb_hasdata cb_hasabuf].
+        replace (t =? BUF_SIZE_MAX) with false by (symmetry; apply Z.eqb_neq; pose proof (buf_inv_mem_len b Hi) as [_ Hl]; buf_consts; lia).
+        f_equal. f_equal. lia.
+      * replace (t - cb_off b) with (0 + Z.of_nat (Z.to_nat (t - cb_off b))) at 1 by lia. apply bufs_zseq_in. lia.
+Qed.
+
+(* the hypotheses are satisfiable and both branches occur: "a,b,c" split at ','  with the
+   request for the second piece refused stops behind "b" (cursor 3, tag 2) without pieces *)
+Example buf_split_okp_example :
+  let b := mkBuf [97; 44; 98; 44; 99] 5 0 0 BUF_SIZE_MAX true false in
+  buf_inv b /\
+  buf_split true (fun _ => true) b [44] 0 0 = Ok (ARES_SUCCESS, buf_at b 5 4, [[97]; [98]; [99]]) /\
+  buf_split true (fun i => negb (Nat.eqb i 1)) b [44] 0 0 = Ok (ARES_ENOMEM, buf_at b 3 2, []).
+Proof.
+  cbn zeta. split; [|split; vm_compute; reflexivity].
+  split; [cbn; lia|]. split; [left; reflexivity|]. right. left. unfold buf_shape_const. cbn.
+  repeat split; try reflexivity; buf_consts; lia.
+Qed.
+
+(* ------------------------------------------------------------------------------------- *)
 (* The main theorem: every operation sequence                                              *)
 (* ------------------------------------------------------------------------------------- *)
 Theorem buf_step_refines junk b op : (forall i, 0 <= junk i < 256) ->
@@ -2318,15 +3117,17 @@ Theorem buf_step_refines junk b op : (forall i, 0 <= junk i < 256) ->
                In (o, buf_abs b') (bufs_alts (buf_abs b) op).
 Proof.
   intros Hj. apply (buf_step_refines_gen junk Hj).
-  intros ok_arr b0 delims flags mx H1 H2 H3. apply buf_split_refines; assumption.
+  - intros ok_arr b0 delims flags mx H1 H2 H3. apply buf_split_refines; assumption.
+  - intros n b0 delims flags mx H1 H2 H3 H4. apply buf_split_fail_at_refines; assumption.
 Qed.
 
 Theorem buf_run_refines junk ops : (forall i, 0 <= junk i < 256) -> Forall buf_op_ok ops ->
   exists tr, buf_run_checked junk buf_empty ops = Ok tr /\ bufs_accepts [bufs_create] ops tr = true.
 Proof.
   intros Hj Hops.
-  apply (buf_run_refines_gen junk Hj); [| apply buf_empty_inv | constructor | exact Hops | left; reflexivity].
-  intros ok_arr b0 delims flags mx H1 H2 H3. apply buf_split_refines; assumption.
+  apply (buf_run_refines_gen junk Hj); [| | apply buf_empty_inv | constructor | exact Hops | left; reflexivity].
+  - intros ok_arr b0 delims flags mx H1 H2 H3. apply buf_split_refines; assumption.
+  - intros n b0 delims flags mx H1 H2 H3 H4. apply buf_split_fail_at_refines; assumption.
 Qed.
 
 (* the hypotheses are satisfiable by a non-trivial run (and the run is what one expects) *)
